@@ -69,8 +69,10 @@ def run(cx):
                     return "err=" + "|".join(sorted(labels))
             return None
         ws = seq_words(b, call_sym, None, extra)
+        # every match error takes the fallback: listing all variants in one arm, or not looking at the error at all
+        ws = {tuple(x for x in w if x != "err=ExtraTrailingSlash|MissingTrailingSlash|NotFound") for w in ws}
         check_words(ob, b, ws, {"at(req.route) [Ok] get(match.value) ret=found.oneshot(req) <return>",
-                                "at(req.route) [Err] err=ExtraTrailingSlash|MissingTrailingSlash|NotFound ret=fallback.oneshot(req) <return>"}, "Router::call")
+                                "at(req.route) [Err] ret=fallback.oneshot(req) <return>"}, "Router::call")
         # RouteMatcher::at is the matchit lookup on the router's own table
         ab = cx.body(f"{R}::RouteMatcher::at")
         t = Origins(ab).of_local(0)
@@ -120,7 +122,7 @@ def run(cx):
         o = Origins(ir)
         w = [d for l, ds in ir.defs().items() for d in ds if d[0] == "partial"]
         t = [c for c in ir.calls_to("anemo::types::response::Response::status_mut")]
-        ob.require(len(t) == 1, "StatusCode::into_response", "StatusCode::into_response does not set the status via status_mut", ir.path)
+        ob.require(sets_status_to_self(prog, ir), "StatusCode::into_response", "StatusCode::into_response does not set the response status to self", ir.path)
 
     with cx.ob("C16.3", "R-MUSTPASS", "route(): the same fresh id goes into matcher and routes; routes never shrinks (justifies the expect in call)") as ob:
         b = cx.body(f"{RT}::route")
